@@ -10,7 +10,7 @@ V_CONTRACT
 int v_pthread_setspecific(pthread_key_t k, const void *v)
 V_REQUIRES(1)
 V_ASSIGNS(g_tls, g.tls_set_calls)
-V_ENSURES(V_RET == g_tls_set_ret && g.tls_set_calls == V_OLD(g.tls_set_calls) + 1 && (V_RET == 0 ? g_tls == (m_ctx_t *)v : g_tls == V_OLD(g_tls)))
+V_ENSURES(V_RET == g_tls_set_ret && g.tls_set_calls == V_OLD(g.tls_set_calls) + 1 && (V_RET == 0 ? __CPROVER_pointer_equals(g_tls, (m_ctx_t *)v) : g_tls == V_OLD(g_tls)))
 ;
 V_CONTRACT
 int v_pthread_once(pthread_once_t *once, void (*f)(void))
@@ -72,9 +72,35 @@ V_ENSURES(V_IMP(ctx_name == NULL || ctx_name[0] == 0, V_RET == -EINVAL))
 V_ENSURES(V_IMP(ctx_name != NULL && ctx_name[0] != 0 && V_OLD(g_tls) != NULL, V_RET == -EEXIST && g_tls == V_OLD(g_tls)))                     /*@C07.second-context-on-a-thread-refused*/
 V_ENSURES(V_IMP(ctx_name != NULL && ctx_name[0] != 0 && V_OLD(g_tls) == NULL, g.ctxnew_calls == V_OLD(g.ctxnew_calls) + 1 && V_RET == g_ctxnew_ret))  /*@C07.free-thread-gets-a-fresh-context*/
 ;
+#ifndef V_CTXNEW_UNIT
 V_CONTRACT
 static int ctx_new(const char *ctx_name, m_ctx_flags flags, const void *userdata)
 V_REQUIRES(g_tls == NULL)
 V_ASSIGNS(g_tls, g.tls_set_calls, g.ctxnew_calls)
 V_ENSURES(V_RET == g_ctxnew_ret && g.ctxnew_calls == V_OLD(g.ctxnew_calls) + 1)
 ;
+#else
+/* ctx_new(): staged construction of a context; it becomes the thread's context only when every stage succeeded, and is released (once) otherwise */
+V_CONTRACT int poll_create(poll_priv_t *priv) V_REQUIRES(priv != NULL) V_ASSIGNS(g.pollcreate_calls) V_ENSURES(V_RET == g_pollinit_ret && g.pollcreate_calls == V_OLD(g.pollcreate_calls) + 1);
+V_CONTRACT m_map_t *m_map_new(m_map_flags flags, m_map_dtor fn) V_REQUIRES(flags == 0) V_ASSIGNS(g.mapnew_calls) V_ENSURES(__CPROVER_is_fresh(V_RET, sizeof(struct _map)) && g.mapnew_calls == V_OLD(g.mapnew_calls) + 1);
+V_CONTRACT char *mem_strdup(const char *s) V_REQUIRES(s != NULL) V_ASSIGNS(g.strdup_calls) V_ENSURES(g.strdup_calls == V_OLD(g.strdup_calls) + 1 && __CPROVER_is_fresh(V_RET, 2));
+V_CONTRACT int fs_create(m_ctx_t *c) V_REQUIRES(c != NULL) V_ASSIGNS(g.fscreate_calls) V_ENSURES(V_RET == g_ips_ret && g.fscreate_calls == V_OLD(g.fscreate_calls) + 1);
+V_CONTRACT
+void *m_mem_new(size_t size, m_ref_dtor dtor)
+V_REQUIRES(size == sizeof(m_ctx_t))
+V_ASSIGNS(g.memnew_calls)
+V_ENSURES(__CPROVER_is_fresh(V_RET, sizeof(m_ctx_t)) && g.memnew_calls == V_OLD(g.memnew_calls) + 1 && ((m_ctx_t *)V_RET)->state == M_CTX_IDLE && !((m_ctx_t *)V_RET)->quit && !((m_ctx_t *)V_RET)->finalized
+          && ((m_ctx_t *)V_RET)->curr_mod == NULL && ((m_ctx_t *)V_RET)->tick.src == NULL && ((m_ctx_t *)V_RET)->thpool == NULL && ((m_ctx_t *)V_RET)->stats.running_modules == 0)   /* zero-initialised block (unit mem.new) */
+;
+V_CONTRACT
+static int ctx_new(const char *ctx_name, m_ctx_flags flags, const void *userdata)
+V_REQUIRES(v_base_ok() && g_tls == NULL && ctx_name != NULL && V_R_OK(ctx_name, 2) && g.memnew_calls == 0)
+V_ASSIGNS(g_tls, g.tls_set_calls, g.memnew_calls, g.pollcreate_calls, g.mapnew_calls, g.strdup_calls, g.fscreate_calls, g.unref_calls, g.unref_arg, g.unref_arg_prev)
+/* every stage succeeded: the fresh context is the thread's context, IDLE, empty, carrying name / flags / user data as given, holding exactly its registration reference */
+V_ENSURES(V_IMP(g_pollinit_ret == 0 && g_ips_ret == 0 && g_tls_set_ret == 0, V_RET == 0 && g_tls != NULL && g.memnew_calls == 1 && g.unref_calls == V_OLD(g.unref_calls)
+                && g_tls->state == M_CTX_IDLE && g_tls->userdata == userdata && (g_tls->flags & flags) == flags && g_tls->modules != NULL && g_tls->name != NULL
+                && ((flags & M_CTX_NAME_DUP) ? ((g_tls->flags & M_CTX_NAME_AUTOFREE) && g_tls->name != ctx_name) : g_tls->name == ctx_name)))                /*@C07.fresh-context-becomes-the-threads-context*/
+/* a failing stage: the half-built context is released exactly once, the thread keeps having no context, the error is returned */
+V_ENSURES(V_IMP(!(g_pollinit_ret == 0 && g_ips_ret == 0 && g_tls_set_ret == 0), V_RET != 0 && g_tls == NULL && g.unref_calls == V_OLD(g.unref_calls) + 1 && g.memnew_calls == 1))   /*@C07.failed-creation-leaves-no-context-behind*/
+;
+#endif
